@@ -525,6 +525,59 @@ def marker_bounded(ctx):
     ctx.ob(RULE, "misnested-a", bad is None and k >= 2, bad or "error, adoption agency, entry removed if still listed, element removed from the stack", "html5ever tree_builder handle_misnested_a_tags")
 
 
+def marker_or_open(ctx):
+    """'a marker, or an element that is in the stack of open elements': a marker answers true; an element entry answers whether
+    ANY element of the whole stack is that node - the search is not cut short (a formatting element can sit below a special
+    element: <b><div>)"""
+    key, pcs = nfq.cells(ctx, TB, "TreeBuilder<Handle,Sink>::is_marker_or_open")
+    bad = None
+    seen = set()
+    for pc in nfq.feasible(pcs):
+        g = pc["guards"]
+        ret = str(pc["ret"])
+        if g.get("p1 matches Marker") is True:
+            seen.add("marker")
+            if ret != "true":
+                bad = "a marker answers %s" % ret
+            continue
+        srch = [(k, v) for k, v in g.items() if "self.open_elems" in k and "same_node" in k]
+        loops = [a for a, _ in _acts(pc) if a.startswith("loop-begin") and "self.open_elems" in a]
+        if srch:
+            k, v = srch[-1]
+            if re.search(r"take_while|skip_while|\.skip\(|\.take\(|filter|step_by|\[\.\.|\[\d|split", k):
+                bad = "the stack is searched only in part (%s): an element that is open but lies outside that part is taken for closed and reconstructed a second time" % k[:100]
+            if not re.search(r"same_node\((a1,p1\.0|p1\.0,a1)\)", k):
+                bad = "the stack is searched for something other than the entry's own node (%s)" % k[:80]
+            seen.add("found" if v else "absent")
+            if ret != ("true" if v else "false"):
+                bad = "the search answers %s but the function answers %s" % (v, ret)
+        elif loops:
+            if re.search(r"take_while|skip|take\(|filter", loops[0]):
+                bad = "the stack is searched only in part (%s)" % loops[0][:100]
+            seen.add("found" if ret == "true" else "absent")
+        else:
+            bad = "an element entry is answered without searching the stack of open elements"
+    ctx.ob(RULE, "is-marker-or-open", bad is None and {"marker", "found", "absent"} <= seen, bad or "marker -> true; element -> is any element of the whole stack that node", "html5ever tree_builder is_marker_or_open")
+
+
+def ignore_lf_one_token(ctx):
+    """'if the NEXT token is a LF character token, ignore it' (after <pre>, <listing>, <textarea>): the flag lives for exactly one
+    token - process_token takes it (reads and clears) on every path, whatever the token is, before anything else can set it"""
+    key, pcs = nfq.cells(ctx, TB, "TreeBuilder<Handle,Sink>[TokenSink]::process_token")
+    bad = None
+    n = 0
+    for pc in nfq.feasible(pcs):
+        names = [a for a, _ in _acts(pc)]
+        n += 1
+        takes = [i for i, a in enumerate(names) if a in ("self.ignore_lf.take", "take self.ignore_lf", "self.ignore_lf.replace", "self.ignore_lf.set", "set self.ignore_lf")]
+        if not takes:
+            kinds = [g[:60] for g, v in pc["guards"].items() if v and g.startswith("p1 matches")][:1]
+            bad = "a token (%s) passes process_token without the ignore-LF flag being consumed: a line feed arriving after further tokens (a tag, a comment) is dropped although it does not directly follow the <pre> / <textarea> start tag" % (kinds or "?")
+        elif any(a in ("self.process_to_completion", "self.step") for a in names[:takes[0]]):
+            bad = "the token is processed before the ignore-LF flag of the previous token is consumed"
+    ctx.ob(RULE, "ignore-lf-lives-for-one-token", bad is None and n >= 10, bad or "%d paths: the flag is taken first, on every path" % n, "html5ever tree_builder process_token")
+
+
 def insert_an_element(ctx):
     """insert an HTML element: ONE element is created from the arguments as they are (no prefix, the given namespace, name,
     attributes, duplicate flag), inserted at the appropriate place (no override target), pushed on the stack of open elements
@@ -677,7 +730,7 @@ def adoption_inner_loop(ctx):
            "html5ever tree_builder adoption_agency")
 
 
-FACTS = (insert_an_element, adoption_inner_loop, marker_bounded, in_scope, implied_end_tags, pop_until, appropriate_place, any_other_end_tag, clear_to_marker, close_the_cell, reconstruct, adoption_bailouts)
+FACTS = (marker_or_open, ignore_lf_one_token, insert_an_element, adoption_inner_loop, marker_bounded, in_scope, implied_end_tags, pop_until, appropriate_place, any_other_end_tag, clear_to_marker, close_the_cell, reconstruct, adoption_bailouts)
 
 
 def run(ctx):
